@@ -1097,3 +1097,29 @@ def matmul_core(x: T, y: T, dtype=None) -> T:
     elif y1:
         out = out.reshape(bshape + (m,))
     return T(dt, out)
+
+
+def representability_axioms(tensors):
+    """Inputs of a narrow float type are fixed points of the (uninterpreted) rounding to that and
+    to every wider format; only emitted when a rounding function occurs in the program."""
+    ax = []
+    used = [n for n in ("rnd16", "rndbf16", "rnd32") if n in USED_UFS]
+    if not used:
+        return ax
+    for t in tensors:
+        if t.kind != "f":
+            continue
+        size = t.dtype.itemsize
+        names = []
+        if t.dtype.name == "float16":
+            names = ["rnd16", "rnd32"]
+        elif t.dtype.name == "bfloat16":
+            names = ["rndbf16", "rnd32"]
+        elif size == 4:
+            names = ["rnd32"]
+        for e in (t.a.reshape(-1) if t.a.ndim else [t.a[()]]):
+            if is_sym(e):
+                for n in names:
+                    if n in used:
+                        ax.append(_uf(n)(e) == e)
+    return ax
